@@ -146,3 +146,44 @@ def run(ctx):
                       "is not (known to be) the complete object file" % main.path_lines(p))
     ctx.finish_rule()
 
+    # ------------------------------------------------------------------ R5
+    # once the destination has been opened, a panic is a non-zero exit with the destination already changed - even the status
+    # line printed after the last write. Closed ledger over main's own sites behind the open and over every local function called there.
+    from ..panics import Ledger, outer_macro
+    ctx.rule("C08.R5", "closed panic ledger from the opening of the destination to the exit", floor=1)
+    ctx.need(opens, "the site that opens the destination")
+    after = set()
+    for ob, oc in opens:
+        after |= main.reachable(ob) - {ob}
+    after_callees = sorted({c for b, t, c in main.calls() if b in after and c in prog_fns(ctx) and not main.is_cleanup(b)})
+    before_only = sorted({c for b, t, c in main.calls() if c in prog_fns(ctx) and c not in after_callees})
+    L = Ledger(ctx, [MAIN], stop=before_only, name="compile tail")
+    scope = set(ctx.cg.reachable(after_callees, stop=before_only)) | set(after_callees)
+    nsite = 0
+    for st in L.sites:
+        if st.fn.name == MAIN:
+            if st.bb not in after:
+                continue
+        elif st.fn.name not in scope:
+            continue
+        nsite += 1
+        ctx.instance(1)
+        ok = L.discharge(st)
+        if not ok and st.kind == "unwrap" and st.operands:
+            x = st.operands[0]
+            while x[0] in ("ref", "deref"):
+                x = x[1]
+            if x[0] == "call" and x[1] in OPENERS:
+                # the opener's own failure: nothing was created or truncated, the non-zero exit leaves the destination as it was
+                ok, st.tactic, st.why = True, "opener-failed", "panics only when `%s` itself failed, i.e. before the destination was touched" % short(x[1])
+        ctx.oblig(ok, {"site": st.key, "at": st.where(), "tactic": st.tactic, "why": st.why} if ok else None, st.tactic)
+        if not ok:
+            ctx.violation("panic-after-open|%s" % st.key, st.where(),
+                          "`%s` can panic at `%s` [%s] after the destination was opened: compile would exit non-zero although the destination has "
+                          "already been created or overwritten" % (short(st.fn.name), st.desc, st.kind))
+    ctx.note("functions called behind the open: %s; %d panic site(s)" % ([short(c) for c in after_callees], nsite))
+    ctx.finish_rule()
+
+
+def prog_fns(ctx):
+    return {n for n, f in ctx.prog.fns.items() if f.bkind == "fn" and (n.startswith("bin::") or n.startswith("lace::"))}
